@@ -119,6 +119,25 @@ def group_unicode(root, repo, pid, P, tier):
         r = res[h["name"]]
         r.update(complete=h["complete"], what=h["what"], bound=h.get("bound", "none (loop-free harness over the full `char` domain)"))
         final.append(r)
+    # name clause: by_name goes through to_uppercase()/String and Box<dyn Fn>; a Kani harness for a name deep in the tables did not
+    # finish in 15 minutes. Stand-in: an exhaustive native enumeration (every advertised name x every scalar value) on the real code.
+    # Labelled as a stand-in: never counted in `discharged`.
+    from . import replay as rp
+    t0 = time.time()
+    try:
+        p = rp._unicode_search(root, repo, ["--names"], timeout=900)
+        out = p.stdout + p.stderr
+        st = "ok" if "NAMES-OK" in p.stdout else ("failed" if "WITNESS" in p.stdout else "undecided")
+        reason = ""
+        for line in p.stdout.split("\n"):
+            if line.startswith("WITNESS "):
+                reason = line[8:]
+    except Exception as e:   # build problem, timeout
+        out, st, reason = str(e), "undecided", str(e)
+    final.append(dict(harness="names_resolve_and_agree", status=st, reason=reason or out[-300:], output=out[-2000:], complete=False,
+                      what="every advertised property name is listed, resolves through unicode::by_name and agrees with its function on every scalar value",
+                      bound="exhaustive native enumeration (names x 1,112,064 scalars) on the real code - an enumerative stand-in, not a deductive proof",
+                      wall_s=time.time() - t0, cmd="cargo run --release (out/unicode_search) -- --names"))
     return final
 
 
